@@ -284,6 +284,12 @@ def plan_wants(rng, S, ref, corrupt):
                     wl = ['BOGUS%d' % idx] + wl
                 elif c == 'drop':
                     wl = wl[:-1]
+                if c != 'noellipsis' and any(wl == list(w) for _, w in opts):
+                    # (what was built is by chance a correct want for this statement in one of its forms, e.g. the stale
+                    # text is printed again by a want-less statement in between: not a corruption, take a plain one)
+                    c = 'replace'
+                    wl = ['BOGUS%d' % idx]
+                    stale_before_ignored = False
                 expect_fail = {'index': idx, 'want': '\n'.join(wl), 'form': tag, 'corruption': c,
                                'after_ignored_want': prev_ignored, 'stale_before_ignored': stale_before_ignored}
                 wants[idx] = wl
